@@ -79,6 +79,8 @@ class Tap(object):
         self.ends = {}               # id(conn) -> EndState
         self.server_by_addr = {}     # addr -> latest ServerClientConnection
         self.expired_contexts = {}   # (id(receiving conn), frag id) -> [(t, fragments held, count)]
+        self.current_fragment = None
+        self.purged_before_store = set()   # (id(receiving conn), frag id) purged while its own arriving fragment was not yet stored
         self.genuine_by_key = {}     # session key -> {first 20 bytes -> datagram} (both directions)
         self.genuine_hello = {}      # ("server", client addr) | ("client", id(client conn)) -> {hdr -> datagram}
         self.keep_genuine = True
@@ -157,6 +159,20 @@ class Tap(object):
             return out
 
         self._orig["expired"] = C.FragmentReceiver.expired
+        self._orig["frag"] = CB._recvAppFragment
+
+        def _recvAppFragment(conn, msgseq, fragment):
+            # label: which fragment is being processed right now (coordinates parsed by the monitor itself)
+            cur = None
+            if len(fragment) >= 6:
+                fid, idx, cnt = struct.unpack(">HHH", fragment[:6])
+                cur = (id(conn), fid, idx - 1, cnt)
+            tap.current_fragment = cur
+            try:
+                return o["frag"](conn, msgseq, fragment)
+            finally:
+                tap.current_fragment = None
+        CB._recvAppFragment = _recvAppFragment
 
         def expired(fr):
             res = o["expired"](fr)
@@ -166,6 +182,14 @@ class Tap(object):
                     if x is fr:
                         idx = frozenset(i for i, f in enumerate(fr.fragments) if f is not None)
                         held = len(idx)
+                        cur = tap.current_fragment
+                        # was the context purged while one of its OWN fragments was being processed and not yet stored?
+                        # (the library stores the arriving fragment first and purges afterwards)
+                        own_unstored = bool(cur and cur[0] == id(conn) and cur[1] == int(fid) and cur[3] == fr.frag_count
+                                            and 0 <= cur[2] < fr.frag_count and cur[2] not in idx)
+                        if own_unstored:
+                            tap.counters.inc("reassembly_context_purged_before_storing_own_fragment")
+                            tap.purged_before_store.add((id(conn), int(fid)))
                         tap.expired_contexts.setdefault((id(conn), int(fid)), []).append(
                             (tap.world.clock.now, idx, fr.frag_count))
                         tap.counters.inc("reassembly_contexts_expired")
@@ -194,6 +218,7 @@ class Tap(object):
         CB._build_packet_impl = self._orig["build"]
         C.Packet.to_bytes = self._orig["to_bytes"]
         C.FragmentReceiver.expired = self._orig["expired"]
+        CB._recvAppFragment = self._orig["frag"]
         self.installed = False
 
     def _on_wire(self, direction, addr, datagram, client, n):
@@ -468,8 +493,11 @@ class WireMonitor(object):
             self.report("C03", "undecodable-emission", "monitor cannot open an emitted %s datagram: %s" % (direction, dec.error))
             return
         if key is not None:
-            if dec.ptype == 2:
+            if dec.ptype == 2 and dec.count == 1 and dec.form == "crc":
+                # the one exemption: the signed server hello - a datagram holding exactly that one message
                 self.c.inc("wire_server_hello_clear")
+            elif dec.ptype == 2 and dec.form != "gcm":
+                self.report("C03", "cleartext-after-key", "a SERVER_HELLO-typed datagram with %d messages travels in clear: only the single signed hello is exempt" % dec.count)
             elif dec.form != "gcm":
                 if dec.ptype == 1 and e.role == "client" and e.emit_last is None:
                     pass
@@ -753,6 +781,13 @@ class BuildMonitor(object):
 
     def built(self, e, before, pkt):
         from mpgameserver.connection import Packet
+        cap0 = Packet.MTU - 28 - 20 - 16
+        for m in before:
+            if len(m.payload) + 2 > cap0:
+                if not getattr(e, "_unsendable_reported", False):
+                    e._unsendable_reported = True
+                    self.report("C09", "queued-message-can-never-fit", "a protocol message of %d bytes (type %s) sits in the send queue but the datagram capacity at MTU %d is %d" % (
+                        len(m.payload), m.type, Packet.MTU, cap0 - 2), {"len": len(m.payload)})
         if pkt is None:
             return
         self.c.inc("packets_built")
